@@ -348,7 +348,7 @@ def run_wallet(case, col):
     name = 'c07_%s' % case['wseed']
     db = os.path.join(os.environ['BCL_DATA_DIR'], 'c07_%s.sqlite' % case['wseed'])
     try:
-        ctx = wallet_env.WalletCtx(name, kind, network, wt, 'c07-%s' % case['wseed'], db)
+        ctx = wallet_env.WalletCtx(name, kind, network, wt, 'c07-%s' % case['wseed'], db, compressed=not case.get('uncompressed'))
     except Exception as e:
         col.violation(None, 'creating a %s/%s/%s wallet raised %r' % (kind, wt, network, e), case, repr(e), None)
         return
@@ -609,6 +609,9 @@ def run_shard(spec, col):
         case = {'wseed': '%d-%d-%d' % (spec['seed'], spec['shard'], k), 'kind': kind, 'wt': wt, 'network': network,
                 'n_utxo': rnd.choice([1, 2, 3, 5, 8, 12, 40 if k % 7 == 0 else 6]), 'n_req': spec['n_req']}
         r2 = rnd.random()
+        if kind == 'single' and r2 < 0.5:
+            case['wt'] = wt = 'legacy'
+            case['uncompressed'] = True     # wallet around an old-style uncompressed WIF key
         if kind == 'hd' and r2 < 0.3:
             case['accounts'] = 2
         elif kind == 'hd' and r2 < 0.6:
